@@ -2313,22 +2313,7 @@ func init() {
 				{Fact: "hash-set", Gen: setsField("hash", core.IsObj("param:0"))},
 				{Fact: "persisted-set", Gen: setsField("persisted", isTrue)},
 			}}
-			// a helper that builds the node may set `persisted`; the hash is the caller's parameter and must be set here
-			if f := r.W.Func(fn); f != nil {
-				for callee := range calleeSet(f) {
-					if h := r.W.Func(callee); h != nil && h.Pkg == f.Pkg {
-						c := h.Ctx()
-						core.InspectBody(h, func(x ast.Node) bool {
-							if kv, ok := x.(*ast.KeyValueExpr); ok {
-								if id, ok := kv.Key.(*ast.Ident); ok && id.Name == "persisted" && isTrue(c, kv.Value) {
-									sp.Calls = append(sp.Calls, called("persisted-set", callee))
-								}
-							}
-							return true
-						})
-					}
-				}
-			}
+			// (a helper that builds the node is looked into on the helper-inlined graph)
 			core.Dominated{Fn: fn, Spec: sp, Sink: core.SinkPred{Label: "return of a cached node", Match: func(fl *core.Flow, n *core.GNode) bool {
 				rs, ok := n.Ast.(*ast.ReturnStmt)
 				return ok && len(rs.Results) == 2 && !isNilLit(fl.C, rs.Results[0]) && isNilLit(fl.C, rs.Results[1])
